@@ -354,13 +354,18 @@ def cmdLife : P String := do
   if s.w.wgPanic then return s!"DIFF {prop} model-predicts-waitgroup-panic {feats}"
   return s!"OK {feats}"
 
-/-- `lifeover <trials> <refused> <early> <hits> <stuck>`: result of the start-up overlap probe (harness/life_probe.go;
-    not part of the check streams: the schedule is probabilistic) -/
+/-- `lifeover <trials> <refused> <early> <hits> <stuck>`: result of the start-up overlap probe (harness/life_probe.go):
+    a `Bind` racing with the start of `DoListen` must either be refused (the serving call was first) or complete
+    before the serving call reads the listener (`early`); `hits` counts the trials in which it was accepted although
+    the serving call had already picked up the old listener, `stuck` those of them in which Shutdown then did not end
+    serving (the defect repaired by a1069ea) -/
 def cmdLifeOver : P String := do
   let trials ← nat; let refused ← nat; let early ← nat; let hits ← nat; let stuck ← nat
-  let feats := s!"nt={if hits != 0 then 1 else 0} trials={trials} refused={refused} early={early} hits={hits} stuck={stuck}"
+  let feats := s!"nt={if refused + early == trials && trials != 0 then 1 else 0} trials={trials} refused={refused} early={early} hits={hits} stuck={stuck}"
   if stuck != 0 then
     return s!"DIFF C14 bind-concurrent-with-serve-start-not-refused-shutdown-does-not-end-serving {feats}"
+  if hits != 0 then
+    return s!"DIFF C14 bind-concurrent-with-serve-start-not-refused {feats}"
   return s!"OK {feats}"
 
 def table : List (String × P String) := [("life", cmdLife), ("lifeover", cmdLifeOver)]
